@@ -96,31 +96,31 @@ theorem getD_take_drop' (u : Bytes) (pos k i : Nat) (hi : i < k) :
     ((u.drop pos).take k).getD i 0 = u.getD (pos + i) 0 := by
   simp [List.getD_eq_getElem?_getD, List.getElem?_take, hi, List.getElem?_drop]
 
-theorem encStep_msg (o : Obj) (v : Int) (s : EncState) :
+theorem encStep_msg (o : Obj) (v : IVal) (s : EncState) :
     (encStep o v s).msg = placeBytes s.msg (o.pos s.origin s.cursorByte)
-      (ord o.hl (toBytesBE o.k ((int32Raw o.enc o.bl v).toNat * 2 ^ o.bp))) (ord o.hl (toBytesBE o.k o.mask)) := rfl
+      (ord o.hl (toBytesBE o.k (o.raw v * 2 ^ o.bp))) (ord o.hl (toBytesBE o.k o.mask)) := rfl
 
-theorem encStep_warn_ge (o : Obj) (v : Int) (s : EncState) : s.warn ≤ (encStep o v s).warn := by
+theorem encStep_warn_ge (o : Obj) (v : IVal) (s : EncState) : s.warn ≤ (encStep o v s).warn := by
   simp [encStep]
 
-theorem encStep_origin (o : Obj) (v : Int) (s : EncState) : (encStep o v s).origin = s.origin := rfl
-theorem encStep_cursor (o : Obj) (v : Int) (s : EncState) :
+theorem encStep_origin (o : Obj) (v : IVal) (s : EncState) : (encStep o v s).origin = s.origin := rfl
+theorem encStep_cursor (o : Obj) (v : IVal) (s : EncState) :
     (encStep o v s).cursorByte = o.pos s.origin s.cursorByte + o.k := rfl
 
-theorem encStep_allBytes (o : Obj) (v : Int) (s : EncState) (h : AllBytes s.msg) : AllBytes (encStep o v s).msg := by
+theorem encStep_allBytes (o : Obj) (v : IVal) (s : EncState) (h : AllBytes s.msg) : AllBytes (encStep o v s).msg := by
   rw [encStep_msg]; exact allBytes_placeBytes _ _ _ _ h (allBytes_ord _ _ (toBytesBE_allBytes _ _))
 
-theorem encStep_length (o : Obj) (v : Int) (s : EncState) :
+theorem encStep_length (o : Obj) (v : IVal) (s : EncState) :
     (encStep o v s).msg.length = max s.msg.length (o.pos s.origin s.cursorByte + o.k) := by
   rw [encStep_msg, placeBytes_length _ _ _ _ (by simp [ord_length, toBytesBE_length]), ord_length, toBytesBE_length]
 
 /-- **Frame, one step.** A bit that an earlier object claimed (its used-bit is set) keeps its value when a
     later object is emplaced without an overlap warning — and stays claimed. -/
-theorem encStep_frame (o : Obj) (v : Int) (s : EncState) (hw : (encStep o v s).warn = s.warn) (a : Nat)
+theorem encStep_frame (o : Obj) (v : IVal) (s : EncState) (hw : (encStep o v s).warn = s.warn) (a : Nat)
     (hu : getBit s.used a = true) :
     getBit (encStep o v s).msg a = getBit s.msg a ∧ getBit (encStep o v s).used a = true := by
   have hml : (ord o.hl (toBytesBE o.k o.mask)).length = o.k := by rw [ord_length, toBytesBE_length]
-  have hnl : (ord o.hl (toBytesBE o.k ((int32Raw o.enc o.bl v).toNat * 2 ^ o.bp))).length = o.k := by
+  have hnl : (ord o.hl (toBytesBE o.k (o.raw v * 2 ^ o.bp))).length = o.k := by
     rw [ord_length, toBytesBE_length]
   have hov : overlapCount (((s.used ++ List.replicate ((padTo s.msg (o.pos s.origin s.cursorByte + o.k)).length - s.msg.length) 0).drop
       (o.pos s.origin s.cursorByte)).take o.k) (ord o.hl (toBytesBE o.k o.mask)) = 0 := by
@@ -156,7 +156,7 @@ theorem encStep_frame (o : Obj) (v : Int) (s : EncState) (hw : (encStep o v s).w
 
 
 /-- the object's own bits are claimed (used) after its emplacement -/
-theorem encStep_own_used (o : Obj) (v : Int) (s : EncState) (j : Nat) (hj : j < o.bl) :
+theorem encStep_own_used (o : Obj) (v : IVal) (s : EncState) (j : Nat) (hj : j < o.bl) :
     getBit (encStep o v s).used (absBit (o.pos s.origin s.cursorByte) o.k o.hl (j + o.bp)) = true := by
   have hml : (ord o.hl (toBytesBE o.k o.mask)).length = o.k := by rw [ord_length, toBytesBE_length]
   have hused : (encStep o v s).used = placeUsed (s.used ++ List.replicate ((padTo s.msg (o.pos s.origin s.cursorByte + o.k)).length - s.msg.length) 0)
@@ -186,9 +186,9 @@ theorem encStep_own_used (o : Obj) (v : Int) (s : EncState) (j : Nat) (hj : j < 
   simp [hj]
 
 /-- the object's own bits carry the ODX representation of the value -/
-theorem encStep_own_bits (o : Obj) (v : Int) (s : EncState) (j : Nat) (hj : j < o.bl) :
+theorem encStep_own_bits (o : Obj) (v : IVal) (s : EncState) (j : Nat) (hj : j < o.bl) :
     getBit (encStep o v s).msg (absBit (o.pos s.origin s.cursorByte) o.k o.hl (j + o.bp))
-      = (int32Raw o.enc o.bl v).toNat.testBit j := by
+      = (o.raw v).testBit j := by
   have ht : j + o.bp < 8 * o.k := by unfold Obj.k; omega
   rw [encStep_msg, getBit_place_inside _ _ _ _ _ _ _ ht]
   unfold Obj.mask
@@ -211,7 +211,7 @@ theorem C01_frame' (m1 m2 : Bytes) (h1 : AllBytes m1) (h2 : AllBytes m2) (pos bl
   · simp [hj]
 
 /-- all objects of a flat parameter list, one after the other -/
-def encAll : List (Obj × Int) → EncState → EncState
+def encAll : List (Obj × IVal) → EncState → EncState
   | [], s => s
   | (o, v) :: rest, s => encAll rest (encStep o v s)
 
@@ -219,17 +219,17 @@ def decAll : List Obj → DecState → List IVal × DecState
   | [], d => ([], d)
   | o :: rest, d => let r := decStep o d; let rs := decAll rest r.2; (r.1 :: rs.1, rs.2)
 
-theorem encAll_warn_ge (ovs : List (Obj × Int)) (s : EncState) : s.warn ≤ (encAll ovs s).warn := by
+theorem encAll_warn_ge (ovs : List (Obj × IVal)) (s : EncState) : s.warn ≤ (encAll ovs s).warn := by
   induction ovs generalizing s with
   | nil => exact Nat.le_refl _
   | cons ov rest ih => exact Nat.le_trans (encStep_warn_ge ov.1 ov.2 s) (ih _)
 
-theorem encAll_allBytes (ovs : List (Obj × Int)) (s : EncState) (h : AllBytes s.msg) : AllBytes (encAll ovs s).msg := by
+theorem encAll_allBytes (ovs : List (Obj × IVal)) (s : EncState) (h : AllBytes s.msg) : AllBytes (encAll ovs s).msg := by
   induction ovs generalizing s with
   | nil => exact h
   | cons ov rest ih => exact ih _ (encStep_allBytes ov.1 ov.2 s h)
 
-theorem encAll_length_ge (ovs : List (Obj × Int)) (s : EncState) : s.msg.length ≤ (encAll ovs s).msg.length := by
+theorem encAll_length_ge (ovs : List (Obj × IVal)) (s : EncState) : s.msg.length ≤ (encAll ovs s).msg.length := by
   induction ovs generalizing s with
   | nil => exact Nat.le_refl _
   | cons ov rest ih =>
@@ -237,7 +237,7 @@ theorem encAll_length_ge (ovs : List (Obj × Int)) (s : EncState) : s.msg.length
     rw [encStep_length]; omega
 
 /-- **Frame, whole suffix**: with no overlap warning, claimed bits keep their values to the end -/
-theorem encAll_frame (ovs : List (Obj × Int)) (s : EncState) (hw : (encAll ovs s).warn = s.warn) (a : Nat)
+theorem encAll_frame (ovs : List (Obj × IVal)) (s : EncState) (hw : (encAll ovs s).warn = s.warn) (a : Nat)
     (hu : getBit s.used a = true) : getBit (encAll ovs s).msg a = getBit s.msg a := by
   induction ovs generalizing s with
   | nil => rfl
@@ -254,12 +254,12 @@ theorem encAll_frame (ovs : List (Obj × Int)) (s : EncState) (hw : (encAll ovs 
 
 /-- the decoder, started where the encoder started, run on the encoder's final message, returns the
     values that were encoded and ends at the encoder's final cursor — provided no overlap was reported -/
-theorem flat_core (ovs : List (Obj × Int)) :
+theorem flat_core (ovs : List (Obj × IVal)) :
     ∀ (s : EncState) (d : DecState),
-      (∀ ov ∈ ovs, ov.1.ok ∧ int32InRange ov.1.enc ov.1.bl ov.2) → AllBytes s.msg →
+      (∀ ov ∈ ovs, ov.1.ok ∧ ov.1.inRange ov.2) → AllBytes s.msg →
       d.origin = s.origin → d.cursorByte = s.cursorByte → d.msg = (encAll ovs s).msg →
       (encAll ovs s).warn = s.warn →
-      (decAll (ovs.map (·.1)) d).1 = ovs.map (fun ov => IVal.int ov.2) ∧
+      (decAll (ovs.map (·.1)) d).1 = ovs.map (fun ov => ov.2) ∧
       (decAll (ovs.map (·.1)) d).2.cursorByte = (encAll ovs s).cursorByte ∧
       (decAll (ovs.map (·.1)) d).2.origin = d.origin ∧ (decAll (ovs.map (·.1)) d).2.msg = d.msg := by
   induction ovs with
@@ -267,30 +267,27 @@ theorem flat_core (ovs : List (Obj × Int)) :
   | cons ov rest ih =>
     intro s d hok hall horig hcur hmsg hw
     obtain ⟨o, v⟩ := ov
-    obtain ⟨⟨hk, hbl, _⟩, hr⟩ := hok (o, v) (List.mem_cons_self ..)
+    obtain ⟨ho, hr⟩ := hok (o, v) (List.mem_cons_self ..)
     have h1 := encStep_warn_ge o v s
     have h2 := encAll_warn_ge rest (encStep o v s)
     have hrest : (encAll rest (encStep o v s)).warn = (encStep o v s).warn := by simp only [encAll] at hw; omega
     simp only [encAll] at hmsg hw ⊢
     -- the first object decodes to v
-    obtain ⟨hr0, hr1, hinv⟩ := int32Raw_spec o.enc hk o.bl hbl v hr
-    have hlt : (int32Raw o.enc o.bl v).toNat < 2 ^ o.bl := by
-      have : ((2 ^ o.bl : Nat) : Int) = (2:Int) ^ o.bl := by simp
-      omega
+    obtain ⟨hlt, hinv⟩ := o.raw_spec ho v hr
     have hall1 := encStep_allBytes o v s hall
     have hallF := encAll_allBytes rest _ hall1
     have hlen1 : o.pos s.origin s.cursorByte + o.k ≤ (encStep o v s).msg.length := by rw [encStep_length]; omega
     have hlenF : o.pos s.origin s.cursorByte + o.k ≤ (encAll rest (encStep o v s)).msg.length :=
       Nat.le_trans hlen1 (encAll_length_ge rest _)
     have hpos : o.pos d.origin d.cursorByte = o.pos s.origin s.cursorByte := by rw [horig, hcur]
-    have hread : readNum d.msg (o.pos d.origin d.cursorByte) o.k o.hl / 2 ^ o.bp % 2 ^ o.bl = (int32Raw o.enc o.bl v).toNat := by
+    have hread : readNum d.msg (o.pos d.origin d.cursorByte) o.k o.hl / 2 ^ o.bp % 2 ^ o.bl = o.raw v := by
       rw [hmsg, hpos]
       have hfr := C01_frame' (encAll rest (encStep o v s)).msg (encStep o v s).msg hallF hall1
         (o.pos s.origin s.cursorByte) o.bl o.bp o.hl hlenF hlen1
         (fun j hj => encAll_frame rest _ hrest _ (encStep_own_used o v s j hj))
       unfold Obj.k at hfr ⊢
       rw [hfr]
-      have := read_place_roundtrip s.msg hall (o.pos s.origin s.cursorByte) o.bl o.bp (int32Raw o.enc o.bl v).toNat o.hl hlt
+      have := read_place_roundtrip s.msg hall (o.pos s.origin s.cursorByte) o.bl o.bp (o.raw v) o.hl hlt
       simp only at this
       rw [encStep_msg]
       exact this
